@@ -40,6 +40,10 @@ source on every run) stores an SSHException-family object, an EOFError/socket er
 None — so the run() ladder modelled above is the only way an exception class gets chosen -/
 theorem all_writers_store_allowed : ∀ s ∈ PV.Generated.C38.sites, s.safe = true := by decide
 
+/-- the blocking `auth_*` calls read `self.auth_handler` repeatedly on the caller's thread while the transport
+thread may be ending: no code resets it to None once the object exists (table regenerated from the source) -/
+theorem auth_handler_never_cleared : ∀ s ∈ PV.Generated.C38.handlerSites, s.safe = true := by decide
+
 /-- the table is not empty and contains the run() ladder -/
 theorem run_ladder_in_table :
     (PV.Generated.C38.sites.filter fun s => s.file == "transport.py" && s.func == "run").length = 4 := by
